@@ -19,6 +19,7 @@ import (
 
 // repoDir is the tree under verification (VSYM_REPO overrides it: used to try seeded changes in a scratch worktree).
 var repoDir = envOr("VSYM_REPO", "/repo")
+
 const modPath = "github.com/database64128/shadowsocks-go"
 
 var verifDir = "/verif"
@@ -302,7 +303,7 @@ func cmdExec(args []string) {
 			fatalf("solver: %v", err)
 		}
 		ex := &Exec{prog: prog, solver: solver, fset: fset, unwind: uw, maxSteps: ms, maxPaths: mp,
-			harness: name, caseVals: job.Case, verbose: *verbose,
+			harness: name, pkgRel: *rel, caseVals: job.Case, verbose: *verbose,
 			PathsEnded: map[string]int{}, Findings: map[string]*Finding{}, Reached: map[string]int{}, ReachSample: map[string]map[string]string{},
 			FuncsEntered: map[string]bool{}, StubsUsed: map[string]int{}, knownLabels: knownLabels}
 		if *inputsFile != "" {
